@@ -159,9 +159,10 @@ def apply_domain(ctx, w, d, tag=""):
     if op in ("normalize_x", "normalize_y"):
         a, b = ctx.real(tag + "lo"), ctx.real(tag + "hi")
         ctx.assume(ctx.lt(a, b))
-        if op == "normalize_y":
-            # admissible only for non-constant values (working, reference and original are all renormalised)
-            for series in (w.y, w.reference_y, w.original_y):
+        # admissible only for a non-zero range (working, reference and original are all renormalised); for the
+        # abscissae this excludes only a one-sample series (e.g. after truncate_by_index(1, None) of two samples)
+        if True:
+            for series in ((w.y, w.reference_y, w.original_y) if op == "normalize_y" else (w.x, w.reference_x, w.original_x)):
                 vs = list(series)
                 ctx.assume(ctx.Or(*[ctx.ne(v, vs[0]) for v in vs[1:]]) if len(vs) > 1 else False)
         getattr(w, op)(a, b)
